@@ -40,7 +40,7 @@ pub enum LdapError { OpSend, ResultRecv, IdScrubSend, Timeout, EndOfStream, Filt
 pub type Result<T> = core::result::Result<T, LdapError>;
 
 #[verifier::external_body] pub struct ItemSender { _p: u8 }
-pub enum LdapOp { Single, Search(ItemSender), Abandon(RequestId), Unbind }
+//@item file=src/protocol.rs kind=enum name=LdapOp
 
 // ---- one-shot reply channel: ghost channel identity + prophecy of what will be received on it
 #[verifier::external_body] pub struct ResultSender { _p: u8 }
